@@ -141,6 +141,11 @@ func main() {
 		fail(err.Error())
 	}
 	obls = append(obls, sobls...)
+	lobls, err := e.LemmaObligations(want)
+	if err != nil {
+		fail(err.Error())
+	}
+	obls = append(obls, lobls...)
 	results := e.Discharge(obls, *smtDir, time.Duration(*timeout)*time.Second, *jobs, *all, e.Defs, axTerms)
 	rep.Obligations = results
 	for _, r := range results {
